@@ -27,4 +27,5 @@ for m in $IDS; do
 done
 # the clean tree again, so Generated/ files are left in their clean state
 rm -f /tmp/sweep.$$.log
+git checkout -- lean/Generated 2>/dev/null
 cat $OUT
